@@ -28,6 +28,8 @@ def declare(rep):
     rep.rule("C01.add-face-siblings", "add_face: every path registers the face on the edges (n1,n2),(n2,n3),(n3,n1), refresh normal/area, set the owner; delete_face looks up the same pairs", floor=2)
     rep.rule("C01.split-winding", "split_edge: the sub-faces of (x,a,b) keep its orientation: then-branch faces are even, else-branch faces odd permutations of (x,a,b) with the midpoint in place of a or b; the test uses the cached normal of the face x belongs to", floor=2)
     rep.rule("C01.swap-winding", "swap_edge: every new face is wound against a surviving neighbour that shares an edge with it", floor=2)
+    rep.rule("C01.swap-precondition", "swap_edge: before it deletes anything it returns when the edge joining the two opposite nodes (the edge the swap creates) already exists", floor=1)
+    rep.rule("C01.edge-key-width", "edge::hash (the key that orders edge_set_) multiplies node ids in arithmetic that cannot wrap for 32-bit ids: a wrapped Cantor pairing gives two edges one key and add_face registers a face on the wrong edge", floor=1)
     rep.rule("C01.normal-follows-winding", "whenever the node order of a face may change (swap_nodes, check_face_winding_order, replace_node) the cached normal/area of that face is refreshed before control leaves the mesh classes", floor=3)
     rep.rule("C01.worklist-filter", "merge_edge: an edge copy enters the work list only if it mentions none of the nodes replaced and none of the faces deleted by this merge; all insertion sites apply the same filter", floor=1)
     rep.rule("C01.rebase", "rebase regenerates the edge set whenever a queue was non-empty; renumbers faces and nodes; remaps node ids of faces", floor=3)
@@ -116,6 +118,8 @@ def run(rep, prog, tier):
     worklist_filter(rep, prog)
     split_winding(rep, prog)
     swap_winding(rep, prog)
+    swap_precondition(rep, prog)
+    edge_key_width(rep, prog)
     pairing(rep, prog)
     add_face_siblings(rep, prog)
     rebase(rep, prog)
@@ -672,3 +676,62 @@ def worklist_filter(rep, prog):
             rep.ok("C01.worklist-filter", prog, fn, c, "insertion guarded by " + " && ".join(want))
     if len({tuple(sorted(cj)) for _, _, cj in sites}) > 1:
         rep.violation("C01.worklist-filter", prog, fn, sites[1][0], "the two insertion sites filter differently", "merge_edge: the filters of the work-list insertions differ: %s" % [cj for _, _, cj in sites])
+
+
+def swap_precondition(rep, prog):
+    """The swap replaces edge (a,b) by edge (c,d). If (c,d) is already an edge of the surface (c and d joined through triangles that
+    contain neither a nor b) the two new faces would be the 3rd and 4th face of that edge: add_face throws after the old faces were
+    deleted and the surface stays open. Every path to the first delete_face must therefore pass an early return taken when
+    get_edge(c, d) has a value."""
+    from ..model import expand_text
+    rule = "C01.swap-precondition"
+    fn = prog.fn("local_mesh_refiner::swap_edge")
+    fi = prog.index(fn)
+    creates = [x for x in walk(fn["body"]) if is_call(x) and x.get("callee") == "cell::create_face"]
+    if len(creates) != 2:
+        raise AnalysisBroken("swap_edge: %d create_face calls" % len(creates))
+    sets = [{expand_text(fn, a) for a in call_args(c)} for c in creates]
+    common = sets[0] & sets[1]
+    if len(common) != 2:
+        rep.violation(rule, prog, fn, creates[0], "the two new faces do not share exactly one edge", "swap_edge: the faces created by the swap share %d node(s); they must share the new edge" % len(common))
+        return
+    dels = [x for x in walk(fn["body"]) if is_call(x) and x.get("callee") == "cell::delete_face"]
+    if not dels:
+        raise AnalysisBroken("swap_edge: no delete_face")
+    first = min(fi.order[id(d)] for d in dels)
+    guard = None
+    for n in walk(fn["body"]):
+        if n.get("k") != "IfStmt" or fi.order[id(n)] > first:
+            continue
+        if fi.enclosing(n, ("IfStmt", "ForStmt", "WhileStmt", "CXXForRangeStmt", "DoStmt", "SwitchStmt")) is not None:
+            continue
+        if not any(r.get("k") == "ReturnStmt" for r in walk(n.get("then") or {})):
+            continue
+        for g in walk(n["cond"]):
+            if is_call(g) and g.get("callee") == "cell::get_edge" and {expand_text(fn, a) for a in call_args(g)} == common:
+                cond_txt = render(n["cond"]).replace(" ", "")
+                neg = cond_txt.startswith("!") or "==false" in cond_txt or "!=true" in cond_txt
+                if "has_value" in cond_txt and not neg:
+                    guard = n
+    if guard is not None:
+        rep.ok(rule, prog, fn, guard, "returns before the first delete_face when get_edge(opposite node of f1, opposite node of f2) has a value")
+    else:
+        rep.violation(rule, prog, fn, dels[0], "swap without testing that the new edge is absent",
+                      "swap_edge deletes the two faces of the edge (line %s) without first returning when the edge between the two opposite nodes already exists: if those nodes are already joined through other triangles, "
+                      "create_face/add_face registers a 3rd face on that edge and throws after the old faces are gone - the surface is left open and edge_set_ no longer matches the triangles" % dels[0].get("l"))
+
+
+def edge_key_width(rep, prog):
+    rule = "C01.edge-key-width"
+    fn = prog.fn("edge::hash")
+    muls = [n for n in walk(fn["body"]) if n.get("k") == "BinaryOperator" and n.get("op") == "*" and not all(strip(c).get("k") in ("IntegerLiteral", "FloatingLiteral") for c in n["c"])]
+    if not muls:
+        raise AnalysisBroken("edge::hash: no product found (pairing function changed)")
+    bad = [m for m in muls if m.get("t", "").replace("const ", "") in ("unsigned int", "int", "unsigned short", "short")
+           and not any(strip(c).get("k") in ("IntegerLiteral", "FloatingLiteral") for c in m["c"])]
+    if bad:
+        rep.violation(rule, prog, fn, bad[0], "edge key computed in 32-bit arithmetic",
+                      "%s multiplies two quantities derived from node ids in %s: the product wraps as soon as the sum of the two node ids reaches 65536 (a cell of ~33k nodes), two different edges then get "
+                      "the same key in the ordered edge set, get_edge/add_face operate on the wrong edge and a split or merge throws half-way, leaving the surface open" % (short(bad[0], 80), bad[0].get("t")))
+    else:
+        rep.ok(rule, prog, fn, muls[0], "pairing function evaluated in %s" % muls[0].get("t"))
